@@ -185,12 +185,16 @@ class BaseJSONWizardMeta(AbstractMeta):
 
         if (field_to_alias := cls.v1_field_to_alias) is not None:
 
-            add_for_load = field_to_alias.pop('__load__', True)
-            add_for_dump = field_to_alias.pop('__dump__', True)
+            # Read the markers without removing them: the mapping is the
+            # user's, and the Meta may be bound again (e.g. when the class
+            # is reached through a main class with a recursive Meta).
+            add_for_load = field_to_alias.get('__load__', True)
+            add_for_dump = field_to_alias.get('__dump__', True)
 
             # Convert string values to single-element tuples
             field_to_aliases = {k: (v, ) if isinstance(v, str) else v
-                              for k, v in field_to_alias.items()}
+                              for k, v in field_to_alias.items()
+                              if k not in ('__load__', '__dump__')}
 
             if add_for_load:
                 DATACLASS_FIELD_TO_ALIAS_FOR_LOAD[dataclass].update(
